@@ -17,6 +17,8 @@ mod eng_render;
 mod eng_sched;
 mod eng_total;
 mod exec;
+mod scen;
+mod sim;
 mod worker;
 
 fn main() {
